@@ -10,7 +10,7 @@ from . import common
 
 ID = "C17"
 LEVEL = "exploration"
-BUDGET = {"quick": 640, "thorough": 150000}
+BUDGET = {"quick": 1920, "thorough": 150000}
 TECHNIQUE = "property-based testing: generated PeleLMeX checkpoints, reference ghost-strip / floor / concat model, independent reader, taste, input snapshot, poison differential"
 RULE = ("Hypothesis-generated synthetic checkpoints (1-3 nested levels, non-cubic / anisotropic domains, non-zero "
         "origin, 1-5 species, ghost width 1-3, both Header variants, each of the five data subsets with its own "
